@@ -13,7 +13,7 @@ Other(i) == [name |-> <<<<120 + i>>, La>>, type |-> 1, class |-> 1, cf |-> FALSE
              rd |-> <<<<10, 0, 0, i>>>>]
 
 Init ==
-  \/ /\ rc \in NamedRcodes /\ ver \in {0, 1, 128, 255} /\ nar \in 0 .. 2 /\ pos \in 0 .. nar
+  \/ /\ rc \in NamedRcodes /\ ver \in {0, 1, 128, 255} /\ nar \in 0 .. 3 /\ pos \in 0 .. nar
      /\ udp = 1232 /\ opts = <<<<3, <<9>>>>>> /\ dobit = 0 /\ two = FALSE
   \* a second, different OPT record at the end of the additional section (RFC 6891 says at most one; a
   \* parser that accepts such a message must still re-serialise it faithfully: C11)
